@@ -915,3 +915,21 @@ def c14_big(rng):
         out.append(Case(argv, good, tags=dict(t, role="A")))
         out.append(Case(argv, bad, tags=dict(t, role="AB_fail")))
     return out
+
+
+def c05_big(rng):
+    """line mode on an input larger than the 64 KiB reader: forward request vs an equivalent buffered one"""
+    out = []
+    g = 10 ** 6
+    N = 20000
+    for z in (False, True):
+        eol = b"\0" if z else b"\n"
+        data = eol.join(str(i).encode() for i in range(1, N + 1)) + eol
+        for fwd, buf in (("15000", "%d" % (15000 - N - 1)), ("3,13000,14000:14001,%d" % N, "3,13000,%d:%d,-1" % (14000 - N - 1, 14001 - N - 1)),
+                         ("13000:", "%d:" % (13000 - N - 1)), ("1,12000", "%d,12000" % (-N)), ("19999:20000", "-2:")):
+            g += 1
+            opts = (["-z"] if z else []) + (["--no-join"] if rng.random() < 0.3 else [])
+            t = {"grp": g, "nomodel": True}
+            out.append(Case(["-l", fwd] + opts, data, tags=dict(t, role="forward")))
+            out.append(Case(["-l", buf] + opts, data, tags=dict(t, role="buffered")))
+    return out
